@@ -191,6 +191,9 @@ func (globber *Globber) walkDir(rootPath string) (walkedDir, error) {
 	}
 	dir := walkedDir{}
 	err := iofs.WalkDir(globber.fs, rootPath, func(path string, d iofs.DirEntry, err error) error {
+		if path == rootPath && err == nil {
+			return nil // The package's own directory is never a result of a glob in it
+		}
 		typeMode := mode(d.Type())
 		if isBuildFile(globber.buildFileNames, path) {
 			packageName := filepath.Dir(path)
